@@ -164,7 +164,7 @@ class Analyzer:
                     w = reads[0][3]
                     want = ("eq", ("len", w), nterm)
                     want2 = ("eq", nterm, ("len", w))
-                    if isinstance(okp.value, Sym) and okp.value.term == w and any(t in (want, want2) and d for t, d, _ in okp.facts) \
+                    if isinstance(okp.value, Sym) and okp.value.term == w and any(f[0] in (want, want2) and f[1] for f in okp.facts) \
                             and [e[:3] for e in badp.effects if e[0] == "read"] == [reads[0][:3]]:
                         return {"kind": "xread", "fn": f.ref, "stream_param": streams[0], "size_param": ints[0],
                                 "exc": badp.value.cls, "line": f.node.lineno}
@@ -200,7 +200,7 @@ class Analyzer:
             p = by_len[k]
             wires = [e[3] for e in p.effects if e[0] == "xread"]
             bv = p.value.info.get("bv") if isinstance(p.value, Sym) else BV.const(p.value)
-            conds = [(t, d) for t, d, _ in p.facts]
+            conds = [(f[0], f[1]) for f in p.facts]
             out.append({"wires": wires, "bv": bv, "conds": conds})
         overflow = [p for p in raises if len([e for e in p.effects if e[0] == "xread"]) == len(rets)]
         return {"kind": "varint", "fn": f.ref, "max_bytes": len(rets), "paths": out,
@@ -222,7 +222,7 @@ class Analyzer:
                     return None
                 iv = b.info["intval"]
                 bvs.append(BV.const(iv) if isinstance(iv, int) else iv.info.get("bv"))
-            out[len(effs)] = {"bytes": bvs, "conds": [(t, d) for t, d, _ in p.facts]}
+            out[len(effs)] = {"bytes": bvs, "conds": [(f[0], f[1]) for f in p.facts]}
         if sorted(out) != list(range(1, len(rets) + 1)):
             return None
         return {"kind": "wvarint", "fn": f.ref, "paths": [out[k] for k in sorted(out)], "value_param": vparam,
